@@ -35,7 +35,7 @@ def tla_value(x):
     if isinstance(x, (set, frozenset)):
         return '{' + ', '.join(sorted(tla_value(e) for e in x)) + '}'
     if isinstance(x, dict):
-        return '[' + ', '.join('%s |-> %s' % (k, tla_value(v)) for k, v in x.items()) + ']'
+        return '[' + ', '.join('%s |-> %s' % (k, tla_value(v)) for k, v in sorted(x.items())) + ']'
     raise TypeError(x)
 
 
